@@ -642,6 +642,26 @@ func suiteSchema16(r *Rng, n int, thorough bool, o *Out) {
 			if len(rels1) != len(want) {
 				pv = fmt.Sprintf("FAIL:%d relationships listed, %d expected", len(rels1), len(want))
 			}
+			// counted independently of Normalize: one entry per one-way relationship and one
+			// per two-way pair, a pair being two (type, name) ends naming each other
+			ends := map[string]bool{}
+			for _, t := range s1.Types {
+				for _, rel := range t.Rels {
+					a := rel.FromType + "\x00" + rel.FromName
+					if rel.ToName == "" {
+						ends["1 "+a] = true
+						continue
+					}
+					b := rel.ToType + "\x00" + rel.ToName
+					if b < a {
+						a, b = b, a
+					}
+					ends["2 "+a+"\x01"+b] = true
+				}
+			}
+			if pv == "ok" && len(rels1) != len(ends) {
+				pv = fmt.Sprintf("FAIL:%d relationships listed for %d one-way relationships and two-way pairs", len(rels1), len(ends))
+			}
 			if !reflect.DeepEqual(rels1, rels2) {
 				pv = "FAIL:Rels() depends on the order in which types were added"
 			}
